@@ -1473,6 +1473,11 @@ def i_fieldaddr(I, fr, ins):
         raise Inconclusive('fieldaddr of %r' % (x,))
     sv = x.c[x.i]
     if not isinstance(sv, SV):
+        hook = getattr(I, 'native_field_hook', None)
+        if hook is not None and isinstance(sv, Native):
+            r = hook(I, x, ins['idx'])
+            if r is not None:
+                return r
         raise Inconclusive('fieldaddr into %r' % (sv,))
     return Ptr(sv, ins['idx'])
 
